@@ -15,10 +15,10 @@ NA = {
 CHECKS = {
  "C08": ("modsim", "edit-session simulation: seeded operation histories with persistence points (close with Cleanup+Format, reopen with Parse) on two real sessions, each compared with a set/map reference model of the documented operations",
    "Seeded well-formed go.mod/go.work files whose every directive line carries numbered comments, 1-40 operations with valid arguments over small pools, persistence points with probability 1/5 per step; at every persistence point and at the end: the output parses strictly, its directives equal the model as multisets, and every line that no operation removed or rewrote without a documented comment guarantee still has its value and its own leading and end-of-line comments.",
-   "Weak fit, stated: modfile has no I/O, clock or concurrency; nothing can be injected. History, persistence points and Go's map order are the only simulator-owned dimensions; the deciding part is the comparison with the reference model.", "4 (C08/C15/C16)"),
+   "Weak fit, stated: modfile has no I/O, clock or concurrency; nothing can be injected. History, persistence points, the caller's reuse of its own lists and buffers, and Go's map order are the only simulator-owned dimensions; the deciding part is the comparison with the reference model. Where the documentation leaves open which of several lines for one key is 'the first', or which operations de-duplicate, a small set of candidate models is carried and the file must agree with one. Finding F3 (see C15) is reported from the file's side as KNOWN-FINDING, exit 0; any other violation is reported.", "4 (C08/C15/C16), 8, 12"),
  "C15": ("modsim", "edit-session simulation (as C08): the exported lists of File/WorkFile after Cleanup are compared with a strict parse of the formatted bytes at every persistence point, for an in-memory session and a re-opened one",
    "Same sessions as C08; oracles: no zero-value placeholder entries after Cleanup, and module/go/toolchain/godebug/require+indirect/exclude/replace/retract+rationale/tool/use lists equal the strict re-parse as multisets, for both the long in-memory session and the session re-opened at persistence points.",
-   "Weak fit, stated (see C08).", "4 (C08/C15/C16)"),
+   "Weak fit, stated (see C08). One genuine defect (F3: in a file with a commented retract block the rationale in memory differs from the one a strict parse of the formatted file yields) is recorded in known_findings.json and reported as KNOWN-FINDING, exit 0, at the end of runs in which nothing else is wrong; any other violation is reported.", "4 (C08/C15/C16), 8"),
  "C16": ("modsim", "edit-session simulation of the bulk setters: random pre-state, one SetRequire/SetRequireSeparateIndirect/SetUse with a random requested list, executed on the in-memory session and 4 times from identical re-parsed bytes (sampling Go's map iteration order)",
    "Oracles after the setter and Cleanup: strict parse; exactly one directive per requested path with the requested version and indirect marking, none for other paths; every block in its documented order (reference comparators incl. an independent SemVer precedence); the first existing line of every kept path keeps its leading and end-of-line comments; the one-uncommented-statement case leaves no block mixing direct and indirect requirements; the 4 repetitions are byte-identical.",
    "Weak fit, stated (see C08). Map order is sampled by repetition, not controlled.", "4 (C08/C15/C16)"),
@@ -76,7 +76,7 @@ def main():
        {"name":"modsim","path":"/verif/sim (props/c08,c15,c16)","serves_properties":["C08","C15","C16"],"kind_free_text":"edit-session simulator: operation histories with persistence points against a set/map reference model"},
      ],
      "checks": [],
-     "notes": "All checks: `./check <ID> quick|thorough`, replay with `./check <ID> --replay <file>`. Exit 0 held / 1 violation / 2 build or harness trouble. Genuine defects: 9 repaired by fix: commits in /repo (D1-D9), 2 recorded as open known findings (F1, C13; F2, C12); see known_findings.json, findings/, seeded/ and DESIGN.md sections 8, 11, 12.",
+     "notes": "All checks: `./check <ID> quick|thorough`, replay with `./check <ID> --replay <file>`. Exit 0 held / 1 violation / 2 build or harness trouble. Genuine defects: 9 repaired by fix: commits in /repo (D1-D9), 3 recorded as open known findings (F1: C13; F2: C12; F3: C15 and C08); see known_findings.json, findings/, seeded/ and DESIGN.md sections 8, 11, 12.",
      "not_applicable": [{"property_id":k,"reason":v} for k,v in sorted(NA.items())],
     }
     for pid,(eng,tech,text,note,ref) in sorted(CHECKS.items()):
